@@ -83,10 +83,15 @@ def memNext (c : Cfg) (mem : Mem) (ws : List (Option Wr)) : Mem := wrAll (rowAft
 def selBit (c : Cfg) (a : Nat) (w : Wr) : Bool :=
   (if c.gran then w.mask.testBit 0 else true) && w.addr == a
 
+/-- `write_port[j].data` as the tracking multiplexer sees it: a signal of the word width (with
+    granularity the width `g*n` is known to the model; without, data is taken as given) -/
+def busData (c : Cfg) (w : Wr) : Nat :=
+  if c.gran then w.data % 2 ^ (c.g * c.n) else w.data
+
 /-- data inputs of the OneHotMux whose select bit is set -/
 def selData (c : Cfg) : List (Option Wr) → Nat → List Nat
   | [], _ => []
-  | some w :: ws, a => if selBit c a w then w.data :: selData c ws a else selData c ws a
+  | some w :: ws, a => if selBit c a w then busData c w :: selData c ws a else selData c ws a
   | none :: ws, a => selData c ws a
 
 /-- `OneHotMux.create(m, [(match_j, write_port[j].data)], default)` (storage.py:132-145;
